@@ -315,10 +315,10 @@ def mutate(g, cont, tag):
             cont[("mut", tag)] = [tag]
             return "insert key (array dtype)"
         return "array overwrite in place"
-    # plain object / pybrops object: new attribute
-    try:
+    # plain harness object: new attribute.  Library objects keep exactly their own fields (their classes copy field by field,
+    # an ad-hoc attribute would not survive the class's own __deepcopy__ and that is not the programme's business)
+    if isinstance(tgt, Box):
         setattr(tgt, "hx_" + "_".join(str(x) for x in tag), [tag])
         return "object setattr"
-    except Exception:
-        cont[("mut", tag)] = [tag]
-        return "insert key (object refused attribute)"
+    cont[("mut", tag)] = [tag]
+    return "insert key (library object left intact)"
